@@ -200,7 +200,7 @@ def run_cases(ctx, cases, closure=True, check_inputs=True, extra_check=None, on_
                     diffs = []
                     if not j.meta.get('skip_compare'):
                         diffs = P.compare_step_to_db(prog, step, db, rels=compare_rels)
-                        if not diffs and closure:
+                        if not diffs and closure and not any(r.ds for r in vprog.rels):
                             cv = closure_violations(prog, step_to_db(prog, step))
                             if cv:
                                 diffs.append({'closure': [(ri, rel, R.show_row(prog, rel, t)) for ri, rel, t in cv]})
